@@ -1,5 +1,6 @@
 import GdcVerif.Model.Htj2k
 import GdcVerif.Lemmas.Htj2k
+import GdcVerif.Lemmas.Htj2kBlock
 /-!
   C06 — HTJ2K Lossless (.201/.202): exact round trip and exact third-party decode.
 
@@ -475,6 +476,74 @@ theorem kmax_level2_hl_lh_sufficient (bd : Nat) (rct : Bool) (hbd : 4 ≤ bd) (M
   have hK := kmax_level2_hl_lh bd rct band (by omega) hband
   simp only [hK, ← hM]
   exact ⟨fun a b c => lvl2_highOfLow M a b c hM8, fun a b c d e => lvl2_lowOfHigh M a b c d e hM8⟩
+
+/-! ## The cleanup pass itself: context VLC, one sample, the first-row quad pair
+
+  `Model/Htj2kBlock.lean` is a code-shaped model of the WHOLE cleanup encoder (`encodeOpenJPHCleanup` with both row
+  loops, the three bit writers, termination, fusion byte, Scup) — byte-exact against `HTEncoder.Encode` on every block
+  the harness tries (op `ht-enc`) — and of the decoder at stream level (`ht-dec`, incl. foreign band precisions).
+  Proved so far: the layers a whole-block lock-step needs, up to and including one first-row quad pair. -/
+
+/-- (35) context-VLC round trip over the generated tables, both quad-row kinds: for every index the encoder can form
+    (`eps ⊆ rho`, not an all-zero quad in context 0) `initOJPHEncoderVLCTable` holds a row, and `InitVLCTables` maps that
+    row's codeword followed by ANY further bits, in the same context, back to the same row — so the decoder recovers
+    rho, u_off (= eps ≠ 0) and an (e_k, e_1) pair with `e_1 = eps & e_k`. -/
+theorem vlc_cxt_roundtrip (initial : Bool) (cq rho eps : Nat) (hcq : cq < 8) (hrho : rho < 16) (heps : eps < 16)
+    (hsub : eps &&& rho = eps) (hnz : ¬ (rho = 0 ∧ cq = 0)) :
+    ∃ r, encSelect (rowsOf initial) cq rho eps = some r ∧
+      (∀ rest, decLookup (rowsOf initial) cq ((r.cwd + rest * 2 ^ r.len) % 128) = some r) ∧
+      r.rho = rho ∧ r.uoff = (if eps = 0 then 0 else 1) ∧ eps &&& r.ek = r.e1 ∧ 1 ≤ r.len ∧ r.len ≤ 7 := by
+  obtain ⟨hok, hcomp⟩ := rowsOf_ok initial
+  obtain ⟨r, hr⟩ := Option.isSome_iff_exists.mp (encSelect_isSome (rowsOf initial) hcomp cq rho eps hcq hrho heps hsub hnz)
+  refine ⟨r, hr, fun rest => (vlc_cxt_roundtrip' _ hok cq rho eps r hr rest).1, ?_⟩
+  have h := vlc_cxt_roundtrip' _ hok cq rho eps r hr 0
+  exact ⟨h.2.1, h.2.2.1, h.2.2.2.1, h.2.2.2.2.1, h.2.2.2.2.2.1⟩
+
+/-- (36) one sample through MagSgn: from the `m = U_q - e_k` low bits of `s = 2|v| - 2 + sign` (`prepareOJPHSample`,
+    `ojphEncodeMagSgn`) and the quad row's (e_k, e_1) bits, `decodeOJPHSampleMS` + the final shift return exactly `v`, and
+    its `v_n` is `2|v| - 1`; hypotheses: `U_q` bounds the sample's exponent, an e_k bit occurs only with `U_q ≥ 2` and then
+    e_1 says whether the exponent equals `U_q` (what `eps` and the VLC row guarantee) -/
+theorem sample_roundtrip (kmax : Nat) (hk : 1 ≤ kmax ∧ kmax ≤ 30) (v : Int) (hv : v.natAbs < 2 ^ kmax) (hv0 : v ≠ 0)
+    (uq ekb e1b : Nat) (hek : ekb ≤ 1)
+    (h1 : (prepSample kmax (toSignMag kmax v)).2.1 ≤ uq) (huq : 1 ≤ uq)
+    (h2 : ekb = 1 → 2 ≤ uq ∧ (e1b = 1 ↔ (prepSample kmax (toSignMag kmax v)).2.1 = uq) ∧ e1b ≤ 1)
+    (h3 : ekb = 0 → e1b = 0) :
+    let s := (prepSample kmax (toSignMag kmax v)).2.2
+    let mn := uq - ekb
+    let msVal := s % 2 ^ mn
+    let vn := (msVal % 2 ^ mn + e1b * 2 ^ mn) / 2 * 2 + 1
+    1 ≤ mn ∧ vn = 2 * v.natAbs - 1 ∧
+    fromSignMag kmax (msVal % 2 * 2 ^ 31 + (vn + 2) * 2 ^ (30 - kmax) % 2 ^ 32) = v :=
+  sample_roundtrip' kmax hk v hv hv0 uq ekb e1b hek h1 huq h2 h3
+
+/-- (37) the first-row quad pair, VLC + MEL + U-VLC lock step: whatever context `cq0` the pair starts in, from the MEL
+    events and VLC items one turn of `encodeOJPHInitialRows` writes (two quads, or one at a narrow right edge) followed by
+    ANY further events / bits, one turn of `decodeOpenJPHInitialRow` recovers both quads' VLC rows (hence rho, e_k, e_1),
+    both `U_q = 1 + u`, the next context, and leaves exactly the rest of both streams -/
+theorem initial_pair_roundtrip (w x cq0 : Nat) (q0 q1 : QuadSig) (hcq : cq0 < 8) (h0 : q0.Valid) (h1 : q1.Valid)
+    (mr : List Bool) (vr : Nat) :
+    decInitialPair w x cq0 { mel := pairMel cq0 (decide (x + 2 < w)) q0 q1 ++ mr,
+                             vlc := winOf (pairVlcItems cq0 (decide (x + 2 < w)) q0 q1) vr } =
+      (((quadRow true cq0 q0.rho q0.eps, 1 + q0.u),
+        (if x + 2 < w then quadRow true (q0.rho / 2 ||| q0.rho % 2) q1.rho q1.eps else none,
+         1 + (if x + 2 < w then q1.u else 0))),
+       (if x + 2 < w then q1.rho / 2 ||| q1.rho % 2 else 0), { mel := mr, vlc := vr }) :=
+  initial_pair_roundtrip' w x cq0 q0 q1 hcq h0 h1 mr vr
+
+/-- (38) its hypotheses hold for every quad the encoder prepares from admissible coefficients: `rho < 16`, `eps ⊆ rho`,
+    `eps = 0 ↔ u = 0`, `u ≤ 32` (indeed ≤ Kmax) -/
+theorem prepared_quad_valid (kmax : Nat) (hk : 1 ≤ kmax ∧ kmax ≤ 30) (v0 v1 v2 v3 : Int)
+    (h0 : v0.natAbs < 2 ^ kmax) (h1 : v1.natAbs < 2 ^ kmax) (h2 : v2.natAbs < 2 ^ kmax) (h3 : v3.natAbs < 2 ^ kmax) :
+    let q := prepQuad kmax [toSignMag kmax v0, toSignMag kmax v1, toSignMag kmax v2, toSignMag kmax v3]
+    QuadSig.Valid ⟨q.rho, max q.eQMax 1 - 1, epsOf q.eQ q.eQMax ((max q.eQMax 1 - 1 : Nat) : Int)⟩ :=
+  prepQuad_valid kmax hk v0 v1 v2 v3 h0 h1 h2 h3
+
+set_option maxRecDepth 100000 in
+/-- non-vacuity / regression anchor: a whole 2×2 block through the encoder model (bytes as the real encoder emits them)
+    and back through the stream-level decoder model, evaluated by the kernel -/
+example : htEncodeBlock 8 2 2 [5, -3, 0, 127] = some [136, 2, 1, 0, 116, 0] ∧
+    (htEncodeState 8 2 2 [5, -3, 0, 127]).bind (htDecodeFromEnc 8 2 2) = some [5, -3, 0, 127] ∧
+    (htEncodeState 8 2 2 [5, -3, 0, 127]).bind (htDecodeFromEnc 6 2 2) = none := by decide +kernel
 
 /-! ## Tile-parts: Psot / TPsot / TNsot / TLM (shared with C16) -/
 
